@@ -30,6 +30,7 @@ import registry  # noqa: E402
 REPO = "/repo"
 WORK = os.environ.get("VERIF_WORK", "/var/tmp/verif-kani")
 UF_C = os.path.join(VERIF, "harness", "common", "uf.c")
+MEM_C = os.path.join(VERIF, "harness", "common", "memshim.c")
 PROJECTS = {
     # the real crate with the in-crate harness modules; hash = CBMC uninterpreted function (uf.c)
     "incrate": dict(manifest_dir=REPO, extra=["--features", "curve25519"], c_libs=[UF_C], rustflags=None),
@@ -47,16 +48,13 @@ def log(*a):
 # hashing of the inputs of a run (memo key): nothing is reused across different source trees
 # ------------------------------------------------------------------------------------------------
 
-def tree_hash():
+def _hash_files(roots):
     h = hashlib.sha256()
-    roots = [os.path.join(REPO, "src"), os.path.join(REPO, "Cargo.toml"), os.path.join(REPO, "Cargo.lock"),
-             os.path.join(VERIF, "harness"), os.path.join(VERIF, "kani-ext", "src"),
-             os.path.join(VERIF, "kani-ext", "Cargo.toml"), os.path.join(HERE, "kdrive.py")]
     files = []
     for r in roots:
         if os.path.isfile(r):
             files.append(r)
-        else:
+        elif os.path.isdir(r):
             for d, _, fs in os.walk(r):
                 if "__pycache__" in d:
                     continue
@@ -71,6 +69,40 @@ def tree_hash():
             pass
         h.update(b"\0")
     return h.hexdigest()[:24]
+
+
+def tree_hash():
+    """everything a goto-binary can depend on: /repo's sources and manifests, all harness sources, the driver"""
+    return _hash_files([os.path.join(REPO, "src"), os.path.join(REPO, "Cargo.toml"), os.path.join(REPO, "Cargo.lock"),
+                        os.path.join(VERIF, "harness", "common"), os.path.join(VERIF, "harness", "incrate"),
+                        os.path.join(VERIF, "kani-ext", "src"), os.path.join(VERIF, "kani-ext", "Cargo.toml"),
+                        os.path.join(HERE, "kdrive.py")])
+
+
+_base = {}
+
+
+def harness_hash(name):
+    """what *this* harness' verdict can depend on: /repo, the shared harness files (model, facade, reference) and
+    the one file that defines the harness — so that editing another harness file does not discard its verdict"""
+    spec = registry.HARNESSES[name]
+    project = spec.get("project", "incrate")
+    if "base" not in _base:
+        _base["base"] = _hash_files([os.path.join(REPO, "src"), os.path.join(REPO, "Cargo.toml"),
+                                     os.path.join(REPO, "Cargo.lock"), os.path.join(VERIF, "harness", "common"),
+                                     os.path.join(VERIF, "harness", "incrate", "mod.rs"),
+                                     os.path.join(VERIF, "harness", "incrate", "spec.rs"),
+                                     os.path.join(VERIF, "harness", "incrate", "spec_prims.rs"),
+                                     os.path.join(HERE, "kdrive.py")])
+    if project == "ext":
+        own = [os.path.join(VERIF, "kani-ext", "src"), os.path.join(VERIF, "kani-ext", "Cargo.toml")]
+    else:
+        mod = spec["path"].split("::")[0]
+        fn = {"verif_kani_opaque": "child_opaque.rs", "verif_kani_envelope": "child_envelope.rs",
+              "verif_kani_tripledh": "child_tripledh.rs"}.get(mod, mod + ".rs")
+        own = [os.path.join(VERIF, "harness", "incrate", fn)] + \
+              [os.path.join(VERIF, "harness", "incrate", x) for x in spec.get("also_depends", [])]
+    return _base["base"] + _hash_files(own)
 
 
 class Lock:
@@ -183,12 +215,12 @@ def run_harness(name, th, tier, use_memo=True):
     if meta is None:
         res.update(status="BROKEN-HARNESS", detail="harness %s not found in the compiled crate" % spec["path"])
         return res
-    default_checks = spec.get("default_checks", False)
+    default_checks = spec.get("default_checks", False) or bool(os.environ.get("VERIF_FORCE_DEFAULT"))
     unwind = spec.get("unwind", meta["attributes"].get("unwind_value"))
     patterns = list(registry.DEFAULT_LOOPS) + list(spec.get("loops", []))
     timeout = spec.get("timeout", 900) * (2 if tier == "thorough" else 1)
     mem = spec.get("mem_gb", 10)
-    key = hashlib.sha256(json.dumps([th, name, spec["path"], default_checks, unwind, patterns, mem >= 0],
+    key = hashlib.sha256(json.dumps([harness_hash(name), name, spec["path"], default_checks, unwind, patterns, mem >= 0],
                                     sort_keys=True).encode()).hexdigest()[:32]
     memo_dir = os.path.join(WORK, "memo")
     os.makedirs(memo_dir, exist_ok=True)
